@@ -154,6 +154,15 @@ def run(ctx: Any, prog: Program) -> None:
         sel = call.func.value
         a0, a1 = call.args
         params = [a.arg for a in et.args.args]
+        if isinstance(sel, ast.Name):
+            # `pattern = A if multiline else B` or the same choice written as an if/else statement
+            nm = sel.id
+            defs_ = [a for a in ast.walk(et) if isinstance(a, ast.Assign) and len(a.targets) == 1 and dotted(a.targets[0]) == nm]
+            ifs_ = [i for i in et.body if isinstance(i, ast.If) and len(i.body) == 1 and len(i.orelse) == 1 and all(isinstance(x, ast.Assign) and dotted(x.targets[0]) == nm for x in (i.body[0], i.orelse[0]))]
+            if len(defs_) == 1 and isinstance(defs_[0].value, ast.IfExp):
+                sel = defs_[0].value
+            elif len(defs_) == 2 and len(ifs_) == 1:
+                sel = ast.IfExp(test=ifs_[0].test, body=ifs_[0].body[0].value, orelse=ifs_[0].orelse[0].value)
         if isinstance(sel, ast.IfExp) and isinstance(sel.test, ast.Name) and len(params) >= 2 and sel.test.id == params[1] \
                 and dotted(sel.body) == 'ESCAPE_MULTILINE_RE' and dotted(sel.orelse) == 'ESCAPE_RE' \
                 and dotted(a0) == '_escape_matcher' and isinstance(a1, ast.Name) and a1.id == params[0]:
